@@ -868,12 +868,17 @@ class CounterexampleHandler:
             solving_ctx=ctx.solving_ctx,
         )
 
+        # note: the callback must not keep a reference to `ex`: it would be released in a
+        # solver thread, freeing z3 objects concurrently with the main thread (z3 contexts
+        # are not thread-safe), which crashes the process sporadically
+        probe_fun_info = ex.context.message.fun_info if self.is_probe else None
+
         # ShutdownError may be raised here and will be handled by the caller
         solve_future = ctx.thread_pool.submit(solve_end_to_end, path_ctx)
         solve_future.add_done_callback(
             partial(
                 self._solve_end_to_end_callback,
-                ex=ex,
+                probe_fun_info=probe_fun_info,
                 path_ctx=path_ctx,
                 description=description,
             )
@@ -902,14 +907,18 @@ class CounterexampleHandler:
             return SolverOutput.from_error(e, path_id=path_id, query_file=query_file)
 
     def _solve_end_to_end_callback(
-        self, future: Future, ex: Exec, path_ctx: PathContext, description: str
+        self,
+        future: Future,
+        probe_fun_info: FunctionInfo | None,
+        path_ctx: PathContext,
+        description: str,
     ) -> None:
         """
         Callback function for handling solver results.
 
         Args:
             future: The Future object containing the solver result
-            ex: The execution state
+            probe_fun_info: The target function in which the assertion failed (probes only)
             description: Optional description of counterexample
         """
         # beware: this function may be called from threads other than the main thread,
@@ -945,7 +954,7 @@ class CounterexampleHandler:
         # mark this probe as reported to avoid duplicate reporting
         # note: message.fun_info is used instead of ctx.info because the function context for probes is dummy.
         if self.is_probe:
-            ctx.contract_ctx.probes_reported.add(ex.context.message.fun_info)
+            ctx.contract_ctx.probes_reported.add(probe_fun_info)
 
         # print counterexample trace
         if description:
